@@ -473,6 +473,111 @@ fn hue_point(c: &HueCase, obs: &mut Obs) -> PropResult {
     Ok(())
 }
 
+
+// ------------------------------------------------------------------------------------------
+// Alpha-wrapped samplers: colour and alpha are sampled independently between their own ends, for every alpha number
+// format, exclusive and inclusive, including ends that coincide in the alpha (two opaque colours) or in every component.
+#[derive(Debug, Clone, Serialize, Deserialize)]
+struct AlphaCase {
+    ty: usize,
+    lo: [f64; 3],
+    hi: [f64; 3],
+    al: f64,
+    ah: f64,
+    inclusive: bool,
+    seed: u64,
+}
+const ALPHA_TYPES: usize = 8;
+
+fn alpha_point(c: &AlphaCase, obs: &mut Obs) -> PropResult {
+    let eq_alpha = c.al == c.ah;
+    let eq_all = eq_alpha && (0..3).all(|i| c.lo[i] == c.hi[i]);
+    obs.nontrivial();
+    obs.class(match (c.inclusive, eq_all, eq_alpha) {
+        (true, true, _) => "alpha: inclusive, both ends equal",
+        (true, false, true) => "alpha: inclusive, same alpha at both ends",
+        (true, false, false) => "alpha: inclusive, distinct ends",
+        (false, ..) => "alpha: exclusive",
+    });
+    // $mk: (components scaled to the type's range) -> colour; $get: colour -> [f64; 3]; $A: alpha type; $ua: f64 in [0,1] -> alpha
+    macro_rules! run {
+        ($name:expr, $C:ty, $A:ty, $mk:expr, $get:expr, $ua:expr, $fa:expr, $tol:expr) => {{
+            let mk = $mk;
+            let get = $get;
+            let (l, h): ($C, $C) = (mk(c.lo), mk(c.hi));
+            let (al, ah): ($A, $A) = ($ua(c.al), $ua(c.ah));
+            let (lv, hv): ([f64; 3], [f64; 3]) = (get(l), get(h));
+            // the precondition of rand's Uniform in the component type actually used: low < high (exclusive), low <= high (inclusive)
+            let ok_excl = (0..3).all(|i| lv[i] < hv[i] || (lv[i] == hv[i] && lv[i].is_nan())) && al < ah;
+            if !c.inclusive && !ok_excl {
+                obs.class("alpha: exclusive range empty in this number format (skipped)");
+            } else {
+                let r = no_panic(|| {
+                    let lo = Alpha::<$C, $A> { color: l, alpha: al };
+                    let hi = Alpha::<$C, $A> { color: h, alpha: ah };
+                    let u = if c.inclusive { Uniform::new_inclusive(lo, hi) } else { Uniform::new(lo, hi) };
+                    let mut rng = Mt::new(c.seed as u32);
+                    (0..24).map(|_| { let s = u.sample(&mut rng); (get(s.color), s.alpha) }).collect::<Vec<([f64; 3], $A)>>()
+                });
+                match r {
+                    Err(p) => pv::fail!("Alpha<{}, {}>: Uniform::{} between {:?} alpha {:?} and {:?} alpha {:?} panicked: {}", $name, stringify!($A), if c.inclusive { "new_inclusive" } else { "new" }, lv, al, hv, ah, p),
+                    Ok(v) => {
+                        for (col, a) in v {
+                            ensure!(a >= al && a <= ah && (c.inclusive || a < ah), "Alpha<{}, {}>: sampled alpha {:?} outside {:?}..{}{:?}", $name, stringify!($A), a, al, if c.inclusive { "=" } else { "" }, ah);
+                            for i in 0..3 {
+                                ensure!(col[i] >= lv[i] - $tol && col[i] <= hv[i] + $tol, "Alpha<{}, {}>: sampled component {} = {} outside [{}, {}] (inclusive = {})", $name, stringify!($A), i, col[i], lv[i], hv[i], c.inclusive);
+                            }
+                            let _ = $fa(a);
+                        }
+                    }
+                }
+            }
+        }};
+    }
+    let unit32 = |x: f64| x as f32;
+    let unit64 = |x: f64| x;
+    let unit8 = |x: f64| (x * 255.0).round() as u8;
+    let unit16 = |x: f64| (x * 65535.0).round() as u16;
+    match c.ty {
+        0 => run!("Srgb<f32>", Srgb<f32>, f32, |v: [f64; 3]| Srgb::new(v[0] as f32, v[1] as f32, v[2] as f32), |x: Srgb<f32>| [x.red as f64, x.green as f64, x.blue as f64], unit32, |a: f32| a as f64, 0.0),
+        1 => run!("LinSrgb<f64>", LinSrgb<f64>, f64, |v: [f64; 3]| LinSrgb::new(v[0], v[1], v[2]), |x: LinSrgb<f64>| [x.red, x.green, x.blue], unit64, |a: f64| a, 0.0),
+        2 => run!("Lab<f64>", Lab<D65, f64>, f32, |v: [f64; 3]| Lab::new(v[0] * 100.0, v[1] * 255.0 - 128.0, v[2] * 255.0 - 128.0), |x: Lab<D65, f64>| [x.l, x.a, x.b], unit32, |a: f32| a as f64, 0.0),
+        3 => run!("Xyz<f32>", Xyz<D65, f32>, f64, |v: [f64; 3]| Xyz::new(v[0] as f32, v[1] as f32, v[2] as f32), |x: Xyz<D65, f32>| [x.x as f64, x.y as f64, x.z as f64], unit64, |a: f64| a, 0.0),
+        4 => run!("Oklab<f32>", Oklab<f32>, u8, |v: [f64; 3]| Oklab::new(v[0] as f32, v[1] as f32 - 0.5, v[2] as f32 - 0.5), |x: Oklab<f32>| [x.l as f64, x.a as f64, x.b as f64], unit8, |a: u8| a as f64, 0.0),
+        5 => run!("SrgbLuma<f64>", SrgbLuma<f64>, u16, |v: [f64; 3]| SrgbLuma::new(v[0]), |x: SrgbLuma<f64>| [x.luma, x.luma, x.luma], unit16, |a: u16| a as f64, 0.0),
+        6 => run!("Luv<f32>", Luv<D65, f32>, f32, |v: [f64; 3]| Luv::new(v[0] as f32 * 100.0, v[1] as f32 * 100.0, v[2] as f32 * 100.0), |x: Luv<D65, f32>| [x.l as f64, x.u as f64, x.v as f64], unit32, |a: f32| a as f64, 0.0),
+        _ => run!("Yxy<f64>", Yxy<D65, f64>, f64, |v: [f64; 3]| Yxy::new(v[0], v[1], v[2]), |x: Yxy<D65, f64>| [x.x, x.y, x.luma], unit64, |a: f64| a, 0.0),
+    }
+    Ok(())
+}
+
+fn alpha_case() -> impl Strategy<Value = AlphaCase> {
+    let comp = || prop_oneof![3 => (0.0..=1.0f64, 0.0..=1.0f64).prop_map(|(a, b)| (a.min(b), a.max(b))), 1 => (0.0..=1.0f64).prop_map(|a| (a, a)), 1 => Just((0.0, 1.0)), 1 => (0u32..=255).prop_map(|k| (k as f64 / 255.0, k as f64 / 255.0))];
+    (0usize..ALPHA_TYPES, [comp(), comp(), comp()], prop_oneof![3 => comp(), 2 => Just((1.0, 1.0)), 1 => Just((0.0, 0.0)), 1 => Just((0.0, 1.0))], any::<bool>(), any::<bool>(), any::<u64>()).prop_map(|(ty, cs, (al, ah), inclusive, all_equal, seed)| {
+        let mut lo = [cs[0].0, cs[1].0, cs[2].0];
+        let mut hi = [cs[0].1, cs[1].1, cs[2].1];
+        let (mut al, mut ah) = (al, ah);
+        if inclusive && all_equal && seed % 4 == 0 {
+            hi = lo;
+            ah = al;
+        }
+        if !inclusive {
+            // exclusive samplers need low < high in every component: widen coincident ends
+            for i in 0..3 {
+                if lo[i] >= hi[i] {
+                    lo[i] = (lo[i] - 0.25).max(0.0);
+                    hi[i] = (lo[i] + 0.5).min(1.0);
+                }
+            }
+            if al >= ah {
+                al = (al - 0.25).max(0.0);
+                ah = (al + 0.5).min(1.0);
+            }
+        }
+        AlphaCase { ty, lo, hi, al, ah, inclusive, seed }
+    })
+}
+
 fn main() {
     let mut h = Harness::new("C19");
     let ents: &'static [TypeEntry] = Box::leak(entries().into_boxed_slice());
@@ -504,6 +609,10 @@ fn main() {
         },
         hue_point,
     );
+    let n = h.n(600_000, 10_000_000);
+    h.prop("alpha_wrapped_samplers", n, alpha_case, alpha_point);
+    h.require_class("alpha_wrapped_samplers", "alpha: inclusive, same alpha at both ends", n / 40);
+    h.require_class("alpha_wrapped_samplers", "alpha: inclusive, both ends equal", n / 200);
     // (c) volume uniformity
     let ksn = if h.is_thorough() { 2_000_000 } else { 200_000 };
     let seed = h.seed;
